@@ -17,6 +17,7 @@
 -/
 import RdfModel.Model.BlankNodes
 import RdfModel.Spec.HtmlTree
+import RdfModel.Model.Description
 namespace RdfModel.Html
 open RdfModel
 
@@ -153,5 +154,35 @@ def tagged (r : Run) : List (Option Owner × Op) :=
   r.rdfa.map (fun q => (some Owner.rdfa, reqOp 0 q))
 
 def history (r : Run) : List BN.Op := (tagged r).map Prod.snd
+
+end RdfModel.Html
+
+/-! ### the combined decoder over one document, given the three denotations
+
+  `J` is the JSON-LD semantics of one script text (property C10's subject; a parameter here). Blank nodes of the
+  result carry their origin: script number, Microdata item position, RDFa label/counter. -/
+namespace RdfModel.Html
+open RdfModel RdfModel.Desc
+
+inductive CB (βJ : Type) where
+  | j (script : Nat) (b : βJ)
+  | m (p : List Nat)
+  | r (named : Option (List Nat)) (anon : Nat)
+  deriving Repr, DecidableEq
+
+/-- `encodingutil.NewTripleAsQuadDecoder(d, nil)`: the default graph -/
+def asQuad {β γ : Type} (f : β → γ) (t : Triple β) : DQuad γ := { t := t.map f, g := none }
+
+/-- the nested decoders `(*Decoder).init` builds for a document whose three readings are given -/
+def docIters {βJ βM βR : Type} (fm : βM → CB βJ) (fr : βR → CB βJ) (scripts : List (List (DQuad βJ)))
+    (md : List (Triple βM)) (rdfa : List (Triple βR)) : List (Iter (DQuad (CB βJ))) :=
+  [ jsonldIter (scripts.zipIdx.map (fun sk => { items := sk.1.map (DQuad.map (CB.j sk.2)), err := false })),
+    { items := md.map (asQuad fm), err := false },
+    { items := rdfa.map (asQuad fr), err := false } ]
+
+/-- the union the combined decoder is expected to yield -/
+def unionOf {βJ βM βR : Type} (fm : βM → CB βJ) (fr : βR → CB βJ) (scripts : List (List (DQuad βJ)))
+    (md : List (Triple βM)) (rdfa : List (Triple βR)) : List (DQuad (CB βJ)) :=
+  scripts.zipIdx.flatMap (fun sk => sk.1.map (DQuad.map (CB.j sk.2))) ++ md.map (asQuad fm) ++ rdfa.map (asQuad fr)
 
 end RdfModel.Html
